@@ -86,7 +86,34 @@ type c08world struct {
 	quiet    bool // fault-free tail: no more faults of any kind
 }
 
+// The accounting clauses of C08 also apply to the components that send
+// accounting records themselves (pkg/dhcp/server.go, pkg/pppoe/teardown.go, both
+// anchored by C08): a share of the runs drives the C16 composites and keeps
+// only their accounting verdicts (exactly one Stop per started session, none
+// for a session that was not started).
+func c08ViaC16(r *sim.Rand, tier string) *sim.Case {
+	name := sim.Pick(r, "dhcp4", "pppoe-teardown")
+	v := c16Variants[name]
+	if v == nil {
+		return nil
+	}
+	cs := &sim.Case{Knobs: map[string]int64{}}
+	cs.Variant = "c16:" + name
+	cs.Knobs["skipmax"] = int64(sim.Pick(r, 1, 1, 2, 8))
+	cs.Knobs["maporder"] = int64(r.N(4))
+	v.gen(r, tier, cs)
+	if name == "dhcp4" {
+		cs.Knobs["radius"] = 1
+	}
+	return cs
+}
+
 func c08Gen(r *sim.Rand, tier string) *sim.Case {
+	if r.P(15) {
+		if cs := c08ViaC16(r, tier); cs != nil {
+			return cs
+		}
+	}
 	cs := &sim.Case{Knobs: map[string]int64{}}
 	cs.Variant = sim.Pick(r, "crash", "crash", "outage", "mixed", "mixed", "calm", "downend")
 	cs.Knobs["maxretries"] = int64(r.Range(3, 6))
@@ -330,6 +357,15 @@ func (w *c08world) markCrash() {
 }
 
 func c08Run(c *sim.Ctx) {
+	if strings.HasPrefix(c.Case.Variant, "c16:") {
+		v := c16Variants[strings.TrimPrefix(c.Case.Variant, "c16:")]
+		if v == nil {
+			return
+		}
+		c.FailFilter = func(inv, fp string) bool { return inv == "acct" || strings.Contains(fp, "/acct-") }
+		v.run(c)
+		return
+	}
 	cs := c.Case
 	w := &c08world{c: c, sess: map[string]*c08sess{}, fails: map[string]int{}, dir: "/var/lib/bng/accounting"}
 	w.fs = sim.NewFS(c.S)
